@@ -110,7 +110,7 @@ def cases(draw, tier):
     if draw(st.integers(0, 3)) == 0:
         n, m = len(spec["obs"]), len(spec["samp"])
         k = draw(st.sampled_from(["value", "ulp", "ulp", "id", "order", "md",
-                                  "type"]))
+                                  "type", "type-spelling"]))
         d = {"kind": k, "axis": draw(ops.AX), "i": draw(st.integers(0, 7)),
              "j": draw(st.integers(0, 7)),
              "to": draw(st.sampled_from([0.0, 1.0, 7.5, -2.0]))}
@@ -218,6 +218,11 @@ def _mutate(spec, d):
         return s
     if k == "type":
         s["type"] = "Gene table" if s["type"] != "Gene table" else None
+        return s
+    if k == "type-spelling":
+        # a type is compared as it is spelled
+        s["type"] = {None: "None", "OTU table": "otu table"}.get(
+            s["type"], (s["type"] or "") + " ")
         return s
     return None
 
@@ -490,3 +495,21 @@ REGRESSIONS = [
                 {"form": "csr_zeros", "md_none": "none", "history": []}],
      "access": [{"op": "nnz"}], "diff": None, "kind": "int"},
 ]
+
+
+def _long_order_twin(n):
+    """Single-difference pair on a long axis: two IDs (with their vectors)
+    swapped.  Shortcuts for long ID lists must still see the order."""
+    obs = ["o%d" % i for i in range(n)]
+    spec = {"obs": obs, "samp": ["s0", "s1"],
+            # (identical vectors: only the order of the IDs differs)
+            "rows": [[1.0, 2.0] for i in range(n)],
+            "obs_md": None, "samp_md": None, "type": None}
+    return {"spec": spec, "kind": "int",
+            "routes": [{"form": "dense", "md_none": "none", "history": []},
+                       {"form": "csr", "md_none": "none", "history": []}],
+            "access": [], "diff": {"kind": "order", "axis": "observation",
+                                   "i": 3, "j": 5, "to": 0.0}}
+
+
+REGRESSIONS += [_long_order_twin(120), _long_order_twin(300)]
